@@ -39,10 +39,12 @@ META = {
         "reproducible_multi: sets of three schemas in three namespaces / files (module paths differing in two parts) with same-named / case-colliding types, so that import aliases are computed; 4 name triples x 3 structure bits x the same pick vectors",
         "transformer_history: every history of 3 calls of the real ResourceTransformer.process (programmatic entry point, real files, real on-disk cache in a private temp dir) over 3 schema files x cache on/off; "
         "every call must produce what a fresh uncached run on the same file produces",
+        "config_routes: every pair of 9 generator options; project file (GeneratorConfig.write -> read) holding any of their values, command-line flags absent or set to any value (False / 0 included) "
+        "laid over it with GeneratorOutput.update exactly as cli.generate does, against the same effective options set through the API: the configurations must be equal",
         "structure styles as partitions (quick: filenames, clusters, single-package; thorough: all five)",
         "selector driven: every (graph, pick vector) in the bound is executed; each path runs concretely",
     ],
-    "outside": ["byte-identical files (no renderer: jinja2 absent)", "CLI vs API vs config-file equivalence (click absent)", "a cached source whose CONTENT changes between runs (staleness is what the cache option asks for)", "set literals / comprehensions and C-level consumers of sets (not intercepted)",
+    "outside": ["byte-identical files (no renderer: jinja2 absent)", "the click layer itself (option parsing, model_options; click absent) - the flag-to-config step behind it is covered by config_routes", "a cached source whose CONTENT changes between runs (staleness is what the cache option asks for)", "set literals / comprehensions and C-level consumers of sets (not intercepted)",
                 "more than 3 classes, more than 4 independent picks"],
     "stubs": ["absent-package shims (click, jinja2, toposort)", "PermSet injected as `set` into module globals; permuted id()"],
     "assumptions": ["C-level consumers of a set subclass bypass __iter__ only where order cannot matter (update, in, len)"],
@@ -343,6 +345,79 @@ def transformer_history(o0: int, o1: int, o2: int) -> bool:
         return result(_tr_history(ops)["ok"])
 
 
+# ---------------------------------------------------------------------------------------------------------------------
+# configuration routes: options passed through the API versus a project file laid under command-line flags
+# (cli.generate: params = non-None flags with "__" -> "."; config = GeneratorConfig.read(file); config.output.update(**params))
+CFG_OPTS = [
+    ("unnest_classes", [False, True]), ("compound_fields__enabled", [False, True]), ("relative_imports", [False, True]), ("wrapper_fields", [False, True]),
+    ("max_line_length", [79, 0, 120]), ("structure_style", [StructureStyle.FILENAMES, StructureStyle.CLUSTERS]), ("compound_fields__max_name_parts", [3, 0]),
+    ("format__slots", [False, True]), ("ignore_patterns", [False, True]),
+]
+
+
+def _cfg_set(cfg, key, value):
+    obj = cfg.output
+    names = key.split("__")
+    for n in names[:-1]:
+        obj = getattr(obj, n)
+    setattr(obj, names[-1], value)
+
+
+def _config_routes(opt_a, opt_b, fa, fb, pa, pb):
+    """Two options (indices into CFG_OPTS).  File values fa / fb (indices into their value lists), flag values pa / pb (0 = flag not given,
+    n = value n-1).  Route 1: project file written by GeneratorConfig.write, read back, flags laid over it the way cli.generate does.
+    Route 2: the same effective options set directly on a fresh GeneratorConfig."""
+    import io
+    import pathlib
+    import tempfile
+    import warnings
+
+    (ka, va), (kb, vb) = CFG_OPTS[opt_a], CFG_OPTS[opt_b]
+    if ka == kb:
+        return {"ok": True, "skipped": "same option twice"}
+    with warnings.catch_warnings():
+        warnings.simplefilter("ignore")
+        filecfg = GeneratorConfig.create()
+        _cfg_set(filecfg, ka, va[fa % len(va)])
+        _cfg_set(filecfg, kb, vb[fb % len(vb)])
+        buf = io.StringIO()
+        GeneratorConfig.write(buf, filecfg)
+        fd, path = tempfile.mkstemp(suffix=".xml")
+        try:
+            with open(fd, "w") as f:
+                f.write(buf.getvalue())
+            loaded = GeneratorConfig.read(pathlib.Path(path))
+        finally:
+            import os
+
+            os.unlink(path)
+        kwargs = {ka: None if pa == 0 else va[(pa - 1) % len(va)], kb: None if pb == 0 else vb[(pb - 1) % len(vb)]}
+        params = {k.replace("__", "."): v for k, v in kwargs.items() if v is not None}
+        loaded.output.update(**params)
+        api = GeneratorConfig.create()
+        for key, vals, fidx, pidx in ((ka, va, fa, pa), (kb, vb, fb, pb)):
+            _cfg_set(api, key, vals[fidx % len(vals)] if pidx == 0 else vals[(pidx - 1) % len(vals)])
+    ok = loaded == api
+    return {"ok": ok, "options": [ka, kb], "file": [repr(va[fa % len(va)]), repr(vb[fb % len(vb)])], "flags": repr(kwargs),
+            "file_plus_flags": repr(loaded.output)[:600], "api": repr(api.output)[:600]}
+
+
+def config_routes(opt_a: int, opt_b: int, fa: int, fb: int, pa: int, pb: int) -> bool:
+    """
+    pre: 0 <= opt_a < len(CFG_OPTS)
+    pre: opt_a < opt_b < len(CFG_OPTS)
+    pre: 0 <= fa <= 2
+    pre: 0 <= fb <= 2
+    pre: 0 <= pa <= 3
+    pre: 0 <= pb <= 3
+    post: _
+    """
+    ca, cb = concretize(opt_a, len(CFG_OPTS)), concretize(opt_b, len(CFG_OPTS))
+    vals = [concretize(fa, 3), concretize(fb, 3), concretize(pa, 4), concretize(pb, 4)]
+    with untraced():
+        return result(_config_routes(ca, cb, *vals)["ok"])
+
+
 def _same(bits, picks):
     style = PART.get("style", 0)
     base = _generate(bits, style, [0, 0, 0, 0])
@@ -360,7 +435,7 @@ def explain(e0, e1, e2, e3, e4, e5, p0, p1, p2, p3):
 
 
 PRE = {}
-EXPLAIN = {"reproducible": explain, "reproducible_multi": explain_multi, "transformer_history": lambda o0, o1, o2: _tr_history([o0, o1, o2])}
+EXPLAIN = {"reproducible": explain, "reproducible_multi": explain_multi, "transformer_history": lambda o0, o1, o2: _tr_history([o0, o1, o2]), "config_routes": _config_routes}
 
 
 def plan(tier):
@@ -377,6 +452,7 @@ def plan(tier):
                 if tier == "quick" and (names + style + compound) % 2:
                     continue
                 jobs.append(Job("reproducible_multi", {"style": style, "compound": compound, "names": names}, 900 if tier == "quick" else 3000, 60, note="selector driven, three namespaces / files"))
+    jobs.append(Job("config_routes", {}, 900, 60, note="selector driven: pairs of options x file values x command-line flag values (incl. falsy) vs the API route"))
     for style in ([0] if tier == "quick" else [0, 1, 3]):
         jobs.append(Job("transformer_history", {"style": style}, 600, 60, note="selector driven: histories of 3 ResourceTransformer.process calls with / without the on-disk cache"))
     return jobs
